@@ -214,7 +214,7 @@ class PTETable:
 
         # Convert string with list of parameters into tuple of numbers.
         # Example: '3, 4' -> (3, 4)
-        params = tuple(int(p) for p in params_str if p.isdecimal())
+        params = tuple(int(p) for p in re.findall('[0-9]+', params_str))
 
         # Create entry and add to list of entries
         entry = PTETableEntry(pte_pattern, message_format, params, file, line)
